@@ -16,7 +16,10 @@ EXPLANATION = ("Over a SYMBOLIC input, every lexer function is run from a well-f
                "(COMMENT excepted) and each ScannerException -- must be taken while the token start is still on the line being scanned "
                "(line_offset <= start: the recorded line is the token's line and the column is non-negative); these are call-site preconditions of "
                "get_position / get_token, discharged at every site reached.  Scanner.next's line bookkeeping (one line closed per line end, its text "
-               "recorded) is a separate contract.  The parser/codegen hop is proved on the real parse_decl / _code_gen / emit for a token list made of an ARBITRARY prefix "
+               "recorded) is a separate contract.  EXACT POSITIONS: the real Scanner.scan on texts made of ANY number of blank lines, ANY indentation, an optional preceding statement "
+               "with a `;` comment of ANY text, then a statement: every token's Position is (number of line ends before it, offset in its line) of its first character in the "
+               "scanned file, and for a bad size suffix / bad index register / unterminated string the ScannerException carries the position of the offending character "
+               "(7 forms; scanner loops cut at invariants that pin the line bookkeeping to its closed form at the current position).  The parser/codegen hop is proved on the real parse_decl / _code_gen / emit for a token list made of an ARBITRARY prefix "
                "(any length, any tokens, any lines) followed by one statement with an undefined symbol (5 opcode operand shapes, .db/.dw/.dl/.pointer): the NodeError raised "
                "is attributed to a token on the statement's own line of the statement's own file.  File names of included files, the quoted line text and the "
                "message format are the bounded part.")
@@ -102,12 +105,136 @@ def shape_statement_after_prefix(name):
     return sh
 
 
+# ------------------------------------------------------------------------------------------------ exact positions on a symbolic text
+# pieces: "NL" any number of line ends, "IN" any indentation (spaces / tabs), "SP" one or more spaces, ";c" any comment text, other strings literal.
+# tokens: (type, piece index where the token starts) or (type, None) for tokens whose position is not constrained (COMMENT, EOF)
+POSITIONED = {
+    "blank lines, indentation, `lda #0x12`": (["NL", "IN", "lda", "SP", "#", "0x12"], [("OPCODE", 2), ("SHARP", 4), ("NUMBER", 5), ("EOF", None)], None),
+    "`nop ; any comment`, blank lines, indentation, `lda 0x10,x`": (["nop", "IN", ";", ";c", "\n", "NL", "IN", "lda", "SP", "0x10", ",", "x"],
+                                                                    [("OPCODE_NAKED", 0), ("COMMENT", None), ("OPCODE", 7), ("NUMBER", 9), ("ADDRESSING_MODE_INDEX", 11), ("EOF", None)], None),
+    "blank lines, indentation, `.db 0x01`, blank lines, `label:`": (["NL", "IN", ".", "db", "SP", "0x01", "\n", "NL", "IN", "name", ":"],
+                                                                    [("KEYWORD", 3), ("NUMBER", 5), ("LABEL", 9), ("EOF", None)], None),
+    "bad size suffix after blank lines and indentation": (["NL", "IN", "lda", ".", "q", "SP", "0x10"], [], 4),
+    "size suffix missing at the line end": (["NL", "IN", "lda", ".", "\n", "nop"], [], 4),
+    "bad index register after a commented line": (["nop", ";", ";c", "\n", "NL", "IN", "lda", "SP", "0x10", ",", "q"], [], 10),
+    "unterminated string after blank lines": (["NL", "IN", ".", "text", "SP", "'abc", "\n", "nop"], [], 5),
+}
+
+
+def _layout(pieces):
+    out = []
+    for k, x in enumerate(pieces):
+        if x == "NL":
+            out.append(("run", f"blank_lines{k}", "\n", 0))
+        elif x == "IN":
+            out.append(("run", f"indent{k}", " \t", 0))
+        elif x == "SP":
+            out.append(("run", f"spaces{k}", " ", 1))
+        elif x == ";c":
+            out.append(("chars", f"comment{k}", 1, 0x10FFFF, "\n", 0))
+        else:
+            out.append(("lit", x))
+    return out
+
+
+def _line_functions(pieces, spans):
+    """NL(p): number of line ends before position p; LO(p): position just after the last line end before p (0 if none) -- closed forms from the
+    piece structure (line ends occur only in pure line-end runs and as literal characters)."""
+    import z3
+
+    def NL(p):
+        total = z3.IntVal(0)
+        for x, (off, ln) in zip(pieces, spans):
+            if x == "NL":
+                total = total + z3.If(p <= off, 0, z3.If(p >= off + ln, ln, p - off))
+            elif x not in ("IN", "SP", ";c"):
+                for i, c in enumerate(x):
+                    if c == "\n":
+                        total = total + z3.If(p > off + i, 1, 0)
+        return total
+
+    def LO(p):
+        cur = z3.IntVal(0)
+        for x, (off, ln) in zip(pieces, spans):  # later line ends dominate
+            if x == "NL":
+                cur = z3.If(z3.And(ln > 0, p > off), z3.If(p >= off + ln, off + ln, p), cur)
+            elif x not in ("IN", "SP", ";c"):
+                for i, c in enumerate(x):
+                    if c == "\n":
+                        cur = z3.If(p > off + i, off + i + 1, cur)
+        return cur
+    return NL, LO
+
+
+def shape_positioned(name):
+    def sh(B):
+        import z3
+        from vf.pyvc.values import FuncVal
+        pieces, toks, err = POSITIONED[name]
+        text, spans = B.text("input", _layout(pieces))
+        NL, LO = _line_functions(pieces, spans)
+        B.engine._c17_lines = (NL, LO)
+        sc = B.inst("a816.parse.scanner.Scanner", initial_state=FuncVal(LX + "lex_initial"), tokens=B.list([]), line_offset=0, current_line=0, pos=0, start=0)
+        at = lambda k: spans[k][0]
+        d = {"s": sc, "name": "t.s", "text": text, "expected_types": B.list([B.enum("a816.parse.tokens.TokenType", t) for t, _ in toks]),
+             "expected_lines": B.list([None if k is None else z3.simplify(NL(at(k))) for _, k in toks]),
+             "expected_columns": B.list([None if k is None else z3.simplify(at(k) - LO(at(k))) for _, k in toks]),
+             "error_line": None if err is None else z3.simplify(NL(at(err))), "error_column": None if err is None else z3.simplify(at(err) - LO(at(err)))}
+        return d
+    return sh
+
+
+def _positions_inv(var, extra):
+    """invariant of every scanner loop on these texts: the line bookkeeping is the closed form at the current position; `extra` adds the
+    loop's own 'everything consumed so far matches' part"""
+    def inv(I, st):
+        import z3
+        from vf.pyvc.values import to_z3int
+        NL, LO = ENGINE_REF[0]._c17_lines
+        o = I.hget(st, st.env[var]).fields
+        g = I.hget(st, st.env["g"]).items
+        pos, pos0 = to_z3int(o["pos"]), to_z3int(g["pos0"])
+        base = z3.And(pos0 <= pos, pos <= to_z3int(o["input"].length), to_z3int(o["current_line"]) == NL(pos), to_z3int(o["line_offset"]) == LO(pos))
+        return z3.And(base, extra(I, st, o, pos0, pos))
+    return inv
+
+
+ENGINE_REF = [None]
+
+
+def _run_matches(I, st, o, pos0, pos):
+    import z3
+    cands, negate = st.env["candidates"], st.env["negate"]
+    j = z3.Int("j!run")
+    inset = z3.Or(*[o["input"].at(j) == ord(c) for c in cands])
+    return z3.ForAll([j], z3.Implies(z3.And(pos0 <= j, j < pos), z3.Not(inset) if negate else inset))
+
+
+def _no_line_end(I, st, o, pos0, pos):
+    import z3
+    j = z3.Int("j!semi")
+    return z3.ForAll([j], z3.Implies(z3.And(pos0 <= j, j < pos), o["input"].at(j) != 10))
+
+
+def positioned_loop_specs(E):
+    from vf.pyvc.loops import LoopSpec
+    from vf.props import C16 as c16
+    ENGINE_REF[0] = E
+    gs = lambda var: (lambda I, st: {"pos0": I.hget(st, st.env[var]).fields["pos"]})
+    return {(SC + "accept_run", 0): LoopSpec("Scanner.accept_run#exact+lines", _positions_inv("self", _run_matches), variant=c16._var_accept_run, havoc=c16._havoc_accept_run,
+                                              modifies=c16._modifies_accept_run, ghost=gs("self")),
+            (LX + "lex_initial", 0): LoopSpec("lex_initial#semicolon-comment#exact+lines", _positions_inv("s", _no_line_end), variant=c16._var_s, havoc=c16._havoc_s, modifies=c16._modifies_s,
+                                               ghost=gs("s"))}
+
+
 EH = "vf.contracts.c_errors."
 
 
 def cases(E):
     cs = [Case(EH + "statement_error_token_contract", f"any prefix, then `{n}`", shape_statement_after_prefix(n),
                target=["a816.parse.parser_states.parse_decl", "a816.parse.codegen._code_gen", "a816.parse.codegen.generate_opcode", "a816.parse.codegen.generate_db"]) for n in STATEMENTS]
+    cs += [Case(H + "scan_positions_contract", n, shape_positioned(n), loop_specs=positioned_loop_specs(E), no_loop_specs=True, no_contracts=True, timeout_ms=60000, group="exact-positions",
+                target=[SC + "scan", SC + "next", SC + "_handle_line", SC + "get_position", SC + "emit"]) for n in POSITIONED]
     cs += [Case(H + "positions_contract", n, shape_fn(n), target=[LX + n], timeout_ms=30000) for n in ["lex_initial"] + c15.SUBLEXERS]
     cs.append(Case(H + "next_line_bookkeeping_contract", "any input, any position", c15.shape_scanner, target=[SC + "next", SC + "_handle_line"]))
     return cs
@@ -118,14 +245,21 @@ def bounded(tier, seed):
     return native_call("b_C17.py", {"tier": tier, "seed": seed}, timeout=3000)
 
 
+QUICK_MUTANTS = 8
+
+
 def mutants():
     from vf.pyvc.mutate import textual
     return [
+        Mutant("_handle_line:line-starts-at-the-line-end (exact positions)", SC + "_handle_line", textual("self.line_offset = self.pos + 1", "self.line_offset = self.pos"), only_harness="scan_positions",
+               only_label="blank lines, indentation, `lda", max_cases=1),
+        Mutant("lex_opcode_size:position-after-next (exact positions)", LX + "lex_opcode_size", textual("raise ScannerException('Invalid Size Specifier', size_position)", "raise ScannerException('Invalid Size Specifier', s.get_position())"),
+               only_harness="scan_positions", only_label="size suffix missing at the line end", max_cases=1),
         Mutant("parse_opcode:attributed-to-the-following-token", "a816.parse.parser_states.parse_opcode", textual("file_info=opcode)", "file_info=p.current())"), only_harness="statement_error"),
         Mutant("parse_keyword:db-attributed-to-the-following-token", "a816.parse.parser_states.parse_keyword", textual("return DataNode('db', expressions, keyword)", "return DataNode('db', expressions, p.current())"), only_harness="statement_error"),
         Mutant("generate_opcode:error-without-location", "a816.parse.codegen.generate_opcode", textual("value_node=ExpressionNode(operand, resolver, file_info)", "value_node=ExpressionNode(operand, resolver, None)"), only_harness="statement_error"),
-        Mutant("lex_quoted_string:position-after-line-end", LX + "lex_quoted_string", textual("raise ScannerException('Unterminated String', string_position)", "raise ScannerException('Unterminated String', s.get_position())"), only_harness="positions"),
-        Mutant("lex_opcode_size:position-after-next", LX + "lex_opcode_size", textual("raise ScannerException('Invalid Size Specifier', size_position)", "raise ScannerException('Invalid Size Specifier', s.get_position())"), only_harness="positions"),
+        Mutant("lex_quoted_string:position-after-line-end", LX + "lex_quoted_string", textual("raise ScannerException('Unterminated String', string_position)", "raise ScannerException('Unterminated String', s.get_position())"), only_harness="c_scanner.positions_contract"),
+        Mutant("lex_opcode_size:position-after-next", LX + "lex_opcode_size", textual("raise ScannerException('Invalid Size Specifier', size_position)", "raise ScannerException('Invalid Size Specifier', s.get_position())"), only_harness="c_scanner.positions_contract"),
         Mutant("_handle_line:two-lines-per-line-end", SC + "_handle_line", textual("self.current_line += 1", "self.current_line += 2"), only_harness="next_line"),
-        Mutant("lex_initial:start-not-reset-after-blank-lines", LX + "lex_initial", textual("s.ignore_run(' \\t\\n')", "s.accept_run(' \\t\\n')"), only_harness="positions"),
+        Mutant("lex_initial:start-not-reset-after-blank-lines", LX + "lex_initial", textual("s.ignore_run(' \\t\\n')", "s.accept_run(' \\t\\n')"), only_harness="c_scanner.positions_contract"),
     ]
